@@ -91,3 +91,47 @@ def _load_extra():
 
 
 _load_extra()
+
+# ------------------------------- C03 --------------------------------------
+M("M_C03_a", ["C03"], "cotengra/core.py",
+  "            if ix_count < self.appearances[ix]\n        }\n\n    @cached_node_property(\"involved\")",
+  "            if ix_count < self.appearances[ix] or (ix_count > 3)\n        }\n\n    @cached_node_property(\"involved\")",
+  "get_legs keeps an index that appeared >3 times even when fully contracted", ["tests/test_tree.py"])
+M("M_C03_b", ["C03"], "cotengra/core.py",
+  "        return self.multiplicity * self._write\n",
+  "        return self._write if len(self.sliced_inds) > 1 else self.multiplicity * self._write\n",
+  "total_write forgets the multiplicity when >=2 indices are sliced", ["tests/test_tree.py"])
+M("M_C03_c", ["C03"], "cotengra/core.py",
+  "            tot_size -= self.get_size(l)\n            tot_size -= self.get_size(r)\n\n        if log is not None:\n            peak",
+  "            tot_size -= self.get_size(l)\n            if len(r) > 1 or len(l) > 1:\n                tot_size -= self.get_size(r)\n\n        if log is not None:\n            peak",
+  "peak_size does not free the right operand when both operands are leaves", ["tests/test_tree.py"])
+M("M_C03_d", ["C03", "C04"], "cotengra/core.py",
+  "            si = SliceInfo(ind not in tree.output, ind, 1, project)",
+  "            si = SliceInfo(ind not in tree.output, ind, 1, project)\n            tree.multiplicity = tree.multiplicity * (d if ind in tree.output and d == 2 else 1)",
+  "projecting a size-2 output index multiplies the multiplicity", ["tests/test_tree.py"])
+M("M_C03_e", ["C03"], "cotengra/core.py",
+  "        for p in self.children:\n            f = self.get_flops(p)\n            w = self.get_size(p)",
+  "        for p in self.children:\n            f = self.get_flops(p)\n            w = self.get_size(p) if len(p) < self.N else 0",
+  "combo_cost ignores the root's write", ["tests/test_tree.py"])
+
+# ------------------------------- C06 --------------------------------------
+M("M_C06_a", ["C06"], "cotengra/core.py",
+  "    for i in range(nsliced - 2, -1, -1):\n        strides[i] = strides[i + 1] * slice_infos[i + 1].size",
+  "    for i in range(nsliced - 2, -1, -1):\n        strides[i] = strides[i + 1] * slice_infos[i].size",
+  "slice strides use the wrong neighbour's size (only visible with >=2 sliced indices of different sizes)", ["tests/test_tree.py"])
+M("M_C06_b", ["C06"], "cotengra/core.py",
+  "        stepsize = prod(\n            si.size for si in self.sliced_inds.values() if si.inner\n        )",
+  "        stepsize = prod(\n            si.size for si in self.sliced_inds.values() if si.inner or si.project is not None\n        )",
+  "harmless: projected output indices have size 1 anyway", ["tests/test_tree.py"], harmless=True)
+M("M_C06_c", ["C06"], "cotengra/core.py",
+  "            for j in range(1, stepsize):\n                i = o * stepsize + j",
+  "            for j in range(1, stepsize):\n                i = o + j * (self.nslices // stepsize)",
+  "gen_output_chunks sums slices with the wrong stride", ["tests/test_tree.py"])
+M("M_C06_d", ["C06"], "cotengra/core.py",
+  "                locations.get(ix, slice(None)) for ix in self.inputs[c]\n            )",
+  "                locations.get(ix, slice(None)) for ix in self.inputs[c]\n            ) if len(self.inputs[c]) < 4 else tuple(locations.get(ix, slice(None)) if j < 3 else slice(None) for j, ix in enumerate(self.inputs[c]))",
+  "slice_arrays ignores removed indices beyond the third axis of an operand", ["tests/test_tree.py"])
+M("M_C06_e", ["C06"], "cotengra/core.py",
+  "            else:\n                # size is 1 and i doesn't change\n                key[ind] = info.project",
+  "            else:\n                # size is 1 and i doesn't change\n                key[ind] = info.project if info.inner else 0",
+  "projected output index always reported as value 0", ["tests/test_tree.py"])
